@@ -212,6 +212,14 @@ RunDefers(P, ds, st) ==
              THEN LET n == st1.cells[d.base] + d.vs[1] IN Chk(Store(st1, d.base, n), n)
              ELSE IF d.k = "clo"         \* c() with the function value fixed at the defer statement
              THEN CallClo(P, d.c, <<>>, st1).st
+             ELSE IF d.k = "relp"        \* relp(p) : the POINTER is fixed at the defer statement, the pointee is read now
+             THEN Emit1(st1, <<"d", st1.cells[d.ref.ptr]>>)
+             ELSE IF d.k = "relq"
+             THEN Emit1(st1, <<"d", st1.cells[d.ref.ptr], st1.cells[d.ref.ptr + 1]>>)
+             ELSE IF d.k = "rels"        \* rels(s) : the slice header is fixed, the elements are read now
+             THEN LET b == st1.cells[d.ref.back] IN Emit1(st1, <<"d", b[1], b[2], b[3]>>)
+             ELSE IF d.k = "relm"        \* relm(m) : the map is fixed, its content is read now
+             THEN Emit1(st1, <<"d", MapLen(st1, d.ref), MapGet(st1, d.ref, 0)>>)
              ELSE IF d.k = "mdel"        \* delete(m, k) with map and key fixed at the defer statement
              THEN (IF d.mv.mp = 0 THEN st1 ELSE Store(st1, d.mv.mp, [st1.cells[d.mv.mp] EXCEPT !.pres = @ \ {d.key}]))
              ELSE CallFn(P, d.f, d.vs, st1).st
@@ -448,6 +456,7 @@ ExecS(P, s, env, st0, ctx) ==
                                                       base |-> IF s.via = "ptr" THEN a.st.cells[env[s.s]].ptr ELSE SBase(s.s, env)]
                             [] s.form = "clo"    -> [k |-> "clo", id |-> id, c |-> a.st.cells[env[s.s]]]
                             [] s.form = "mdel"   -> [k |-> "mdel", id |-> id, mv |-> a.st.cells[env[s.s]], key |-> a.v % 4]
+                            [] s.form \in {"relp", "relq", "rels", "relm"} -> [k |-> s.form, id |-> id, ref |-> a.st.cells[env[s.s]]]
                             [] OTHER             -> [k |-> s.form, id |-> id, f |-> s.f, vs |-> <<a.v>>]
                 IN
                 IF ~Ok(a.st) THEN R(env, a.st) ELSE
@@ -548,6 +557,16 @@ ExecS(P, s, env, st0, ctx) ==
                 Dr(q, s0) == IF q = <<>> THEN s0 ELSE Dr(Tail(q), Emit1(s0, <<"c", s.id, Head(q)>>))
             IN IF ~o.closed THEN R(env, [st EXCEPT !.status = "fuel"])
                ELSE R(env, Dr(o.buf, Store(st, oc, [o EXCEPT !.buf = <<>>])))
+      [] s.k = "preasg" ->    \* p = &x  |  q = &u : the pointer variable now designates another variable
+            R(env, Store(st, env[s.p], [ptr |-> IF s.form = "q" THEN SBase(s.s, env) ELSE env[s.x]]))
+      [] s.k = "slreasg" ->   \* s = s2  |  s = []int{e1, e2, e3}
+            IF s.form = "share" THEN R(env, Store(st, env[s.s], st.cells[env[s.from]])) ELSE
+            LET a == EvalArgs(P, s.es, env, st) IN
+            IF ~Ok(a.st) THEN R(env, a.st) ELSE
+            LET bc == NewId(a.st) IN R(env, Store(Alloc(a.st, a.vs), env[s.s], [back |-> bc]))
+      [] s.k = "mreasg" ->    \* m = m2  |  m = make(map[int]int)
+            IF s.form = "share" THEN R(env, Store(st, env[s.s], st.cells[env[s.from]])) ELSE
+            LET oc == NewId(st) IN R(env, Store(Alloc(st, EmptyMap), env[s.s], [mp |-> oc]))
       [] s.k = "cdef" -> R(env, st)      \* const k = v : uses carry the value
       [] s.k = "bdef" ->      \* b := condition
             LET c == EvalE(P, s.c, env, st) IN
